@@ -1733,6 +1733,12 @@ func (c *PermanodeConstraint) blobMatches(ctx context.Context, s *search, br blo
 		var vals []string
 		if corpus == nil {
 			vals = dp.Attr[c.Attr]
+		} else if c.ValueInSet != nil {
+			// The scratch slice s.ss is shared by the whole search: the
+			// ValueInSet sub-query is evaluated (on other permanodes)
+			// while we range over vals and would overwrite them.
+			vals = corpus.AppendPermanodeAttrValues(
+				nil, br, c.Attr, c.At, s.h.owner.KeyID())
 		} else {
 			s.ss = corpus.AppendPermanodeAttrValues(
 				s.ss[:0], br, c.Attr, c.At, s.h.owner.KeyID())
